@@ -61,3 +61,108 @@ Theorem range_slice_is_list_slice : forall c vs a b,
   exists c', crange c a b = Ok c' /\ to_list c' = slice vs a b /\ clen c' = b - a.
 Proof. exact crange_spec. Qed.
 Print Assumptions range_slice_is_list_slice.
+
+(* ------------------------------------------------------------------------------------------------
+   Slicing: the layout-level model [getitem_model] refines the value-level specification
+   [getitem_spec] (proofs in Proofs_Getitem.v .. Proofs_Getitem9.v).
+   Fragment [gfrag]: 1-d NumpyArray leaves, EmptyArray, ListOffsetArray / ListArray / RegularArray at any
+   depth (any width, any offset origin), IndexedArray, the four option encodings, RecordArray, parameter
+   nodes without __array__ (no unions, no strings, no n-d leaves); a record directly under an
+   IndexedArray / option node has no IndexedArray / option field ([rec_fields_ok], part of [gfrag]).
+   Items [item_ok]: integer, range (any bounds / step, also out of range and negative), newaxis, ellipsis,
+   field name, list of field names — any number of them in any order.
+   [slice_ok items c]: no positional item (and no ellipsis that still has to skip levels) arrives at a
+   record (computed on the type; vacuous on record-free layouts, [getitem_refines_spec_norecords]).
+   [fuel_ok items c]: the fixed fuel [items_fuel items] covers the stated cost ([cost_m], [cost_s]); always
+   true without ellipsis, and with one ellipsis on layouts of depth <= 5; it cannot be dropped
+   (Example getitem_ellipsis_fuel_refuted in Proofs_Getitem7.v: the model runs out of fuel on a valid
+   8-level layout where the specification answers).
+   ------------------------------------------------------------------------------------------------ *)
+From AwkV Require Import AtAxis Proofs_AtAxis Proofs_Getitem Proofs_Getitem2 Proofs_Getitem3 Proofs_Getitem4
+                         Proofs_Getitem5 Proofs_Getitem6 Proofs_Getitem7 Proofs_Getitem8 Proofs_Getitem9.
+
+(* values AND error status *)
+Theorem getitem_refines_spec_partial : forall items c vs,
+  forallb item_ok items = true -> Valid None c -> gfrag c = true -> to_list c = Ok vs ->
+  slice_ok items c = true -> fuel_ok items c = true ->
+  obs (getitem_model items c) = getitem_spec items (type_of c) vs.
+Proof. exact Proofs_Getitem7.getitem_refines_spec_partial. Qed.
+Print Assumptions getitem_refines_spec_partial.
+
+(* the out-of-fuel (and out-of-bounds) outcomes are impossible under the stated fuel, on both sides *)
+Theorem getitem_never_out_of_fuel : forall items c vs,
+  forallb item_ok items = true -> Valid None c -> gfrag c = true -> to_list c = Ok vs ->
+  slice_ok items c = true -> fuel_ok items c = true ->
+  obs (getitem_model items c) <> Err EFuel /\ getitem_spec items (type_of c) vs <> Err EFuel /\
+  obs (getitem_model items c) <> Err EOob /\ getitem_spec items (type_of c) vs <> Err EOob.
+Proof. exact Proofs_Getitem7.getitem_never_out_of_fuel. Qed.
+Print Assumptions getitem_never_out_of_fuel.
+
+(* the answer does not depend on the fuel: any fuels covering the cost give the same observation *)
+Theorem getitem_fuel_independent : forall items c vs fm fs,
+  forallb item_ok items = true -> Valid None c -> gfrag c = true -> to_list c = Ok vs -> slice_ok items c = true ->
+  (cost_m (adepth c) items <= fm)%nat -> (cost_s (adepth c) items <= fs)%nat ->
+  obs (gn fm (Regular c (clen c) 1) items None) =
+  obs_spec (sg fs None (Some (zlen vs)) (type_of c) [Some vs] items None) /\
+  obs (gn fm (Regular c (clen c) 1) items None) <> Err EFuel /\
+  obs (gn fm (Regular c (clen c) 1) items None) <> Err EOob.
+Proof. exact Proofs_Getitem7.getitem_fuel. Qed.
+Print Assumptions getitem_fuel_independent.
+
+Theorem getitem_fuel_enough_without_ellipsis : forall items c, nell items = O -> fuel_ok items c = true.
+Proof. exact fuel_ok_no_ellipsis. Qed.
+Print Assumptions getitem_fuel_enough_without_ellipsis.
+Theorem getitem_fuel_enough_shallow : forall items c,
+  (nell items <= 1)%nat -> tdepth (type_of c) <= 5 -> fuel_ok items c = true.
+Proof. exact fuel_ok_shallow. Qed.
+Print Assumptions getitem_fuel_enough_shallow.
+
+(* on record-free layouts the side condition disappears *)
+Theorem getitem_refines_spec_norecords : forall items c vs,
+  forallb item_ok items = true -> Valid None c -> gfrag c = true -> norec (type_of c) = true -> to_list c = Ok vs ->
+  fuel_ok items c = true ->
+  obs (getitem_model items c) = getitem_spec items (type_of c) vs.
+Proof. exact Proofs_Getitem7.getitem_refines_spec_norecords. Qed.
+Print Assumptions getitem_refines_spec_norecords.
+
+(* projecting a field on the layout is projecting it on the type and on every value (error = no such field);
+   the projected layout is valid and stays in the fragment *)
+Theorem field_projection_refines : forall k c xs,
+  Valid None c -> gfrag c = true -> to_list c = Ok xs ->
+  match field_content k c with
+  | Ok f => proj_ty k (type_of c) = Ok (type_of f) /\
+            (exists ys, mapM (proj_v k (type_of c)) xs = Ok ys /\ to_list f = Ok ys) /\
+            Valid None f /\ gfrag f = true
+  | Err e => e = EValue /\ proj_ty k (type_of c) = Err EValue
+  end.
+Proof. exact field_content_spec. Qed.
+Print Assumptions field_projection_refines.
+
+Theorem fields_projection_refines : forall ks c xs,
+  Valid None c -> gfrag c = true -> to_list c = Ok xs ->
+  match fields_content ks c with
+  | Ok f => projs_ty ks (type_of c) = Ok (type_of f) /\
+            (exists ys, mapM (projs_v ks (type_of c)) xs = Ok ys /\ to_list f = Ok ys) /\
+            Valid None f /\ gfrag f = true
+  | Err e => e = EValue /\ projs_ty ks (type_of c) = Err EValue
+  end.
+Proof. exact fields_content_spec. Qed.
+Print Assumptions fields_projection_refines.
+
+(* at the layout level: a field item may be moved in front of the positional items (integers, ranges) that
+   precede it — slicing then projecting = projecting then slicing *)
+Theorem field_commutes_with_positional : forall pre k post c vs,
+  forallb basic_item pre = true -> forallb item_ok post = true ->
+  Valid None c -> gfrag c = true -> to_list c = Ok vs -> has_field k c = true ->
+  slice_ok (pre ++ IField k :: post) c = true -> fuel_ok (pre ++ IField k :: post) c = true ->
+  obs (getitem_model (pre ++ IField k :: post) c) = obs (getitem_model (IField k :: pre ++ post) c).
+Proof. exact Proofs_Getitem8.field_commutes_with_positional. Qed.
+Print Assumptions field_commutes_with_positional.
+
+(* one integer array alone, on EVERY valid layout (no fragment restriction): a[ix] gathers the elements ix;
+   negative indexes wrap, an out-of-range index is an error *)
+Theorem getitem_array_alone : forall ix c vs,
+  Valid None c -> to_list c = Ok vs ->
+  obs (getitem_model [IArray ix] c) = getitem_spec [IArray ix] (type_of c) vs.
+Proof. exact Proofs_Getitem9.getitem_array_alone. Qed.
+Print Assumptions getitem_array_alone.
